@@ -1035,6 +1035,31 @@ func (s *sim) checkOneShell(a Action) {
 		}
 		return
 	}
+	if !b.goneJudged {
+		// the one shell has ended: somebody must have ended it (its client
+		// closing or resetting a stream, an upload that ended, the harness
+		// stopping the server); a shell whose client has done nothing of the
+		// kind was cut off by the program
+		b.goneJudged = true
+		if !s.stopping && !b.stopped {
+			for _, ss := range s.sess {
+				if ss.closed || ss.closing || ss.noJudge || ss.resetWithLines || !ss.expectOK || !ss.readyChecked {
+					continue
+				}
+				open := true
+				for _, c := range []*client{ss.in, ss.out, ss.io} {
+					if c != nil && c.closed {
+						open = false
+					}
+				}
+				if open && (ss.io != nil || ss.in != nil && ss.out != nil) {
+					s.violate("C12", "shell-undisturbed", "the one shell was ended by the program although its client had not ended it",
+						"-one-shell: session %d was ready and none of its streams had been closed, reset or ended by its client, yet the shell is announced gone (after %s)", ss.n, a.K)
+					return
+				}
+			}
+		}
+	}
 	if b.helpAfter > 0 {
 		s.violate("C12", "no-new-callbacks", "callback help offered again after the one shell ended", "-one-shell: %d one-liners were printed after the shell had gone", b.helpAfter)
 		return
